@@ -30,6 +30,7 @@ RULE += (' Also: bodies raising subclasses of GeneratorExit / StopAsyncIteration
 RULE += (' Also: the decorated function as a plain function that works when called and returns an awaitable.')
 RULE += (" Also: contexts replacing the body's failure by a RuntimeError of their own.")
 RULE += (' Also: calls made from inside an except block of the caller.')
+RULE += (' Also: exceptions with lenient equality.')
 ASSUMPTIONS = ["class-based ContextDecorator instances are shared between calls (documented default of _recreate_cm)"]
 EXHAUSTIVE_SUBSPACES = 'every scenario counted in scenarios_explored_exhaustively had ALL its interleavings executed'
 EXHAUSTIVE = {"quick": False, "thorough": False}
@@ -83,7 +84,19 @@ class StopSignal(StopAsyncIteration):
     pass
 
 
-EXACT = {"Exception": Exception, "BaseException": BaseException, "StopAsyncIteration": StopAsyncIteration,
+class LenientError(Exception):
+    """An exception with a LENIENT equality: equal to anything (a test double, a sloppy value-based ``__eq__``).  Which
+    exception is which is a matter of identity."""
+    __hash__ = None  # type: ignore[assignment]
+
+    def __eq__(self, other):
+        return True
+
+    def __ne__(self, other):
+        return False
+
+
+EXACT = {"LenientError": LenientError, "Exception": Exception, "BaseException": BaseException, "StopAsyncIteration": StopAsyncIteration,
          "RuntimeError": RuntimeError, "KeyError": KeyError, "ShutdownSignal": ShutdownSignal, "StopSignal": StopSignal}
 
 
